@@ -60,6 +60,33 @@ def gen(tier, rng):
                                                 src_c={"g": "rand", "seed": n}, src_lay=lay_with_guard(slay, 1) if slay else None,
                                                 dst_lay=lay_with_guard(dlay, 1) if dlay else {"k": "image"},
                                                 api="typed" if typed else "dyn", threads=threads, log=("dst",), chk=chk, g=g, sent=sent))
+    # single-pass plans (horizontal-only / vertical-only) from a crop strictly inside the source into destinations with surroundings:
+    # the kernels' "remaining rows" / tail loops are bounded only by the row iterators of the views
+    for pt in pts:
+        for (dw, dh) in ((4, 5), (11, 6), (3, 7), (9, 9), (5, 1), (17, 3)):
+            for plan in ("h", "v", "both"):
+                for (alg, flt, m) in (("conv", "Lanczos3", 1), ("interp", "Bilinear", 1), ("ss", "Box", 1)):
+                    n += 1
+                    if tier == "quick" and n % 3:
+                        continue
+                    if plan == "h":
+                        box = (2, 3, 7 if dw != 7 else 8, dh)
+                    elif plan == "v":
+                        box = (2, 3, dw, 8 if dh != 8 else 7)
+                    else:
+                        box = (1, 2, dw + 3, dh + 2)
+                    sw, sh = box[0] + box[2] + 3, box[1] + box[3] + 4
+                    typed = n % 2 == 1
+                    if typed:
+                        slay, dlay = [TYPED_PAIRS[2], TYPED_PAIRS[4], TYPED_PAIRS[5]][n % 3]
+                    else:
+                        slay, dlay = [DYN_PAIRS[3], DYN_PAIRS[5], DYN_PAIRS[6]][n % 3]
+                    g += 1
+                    for rep, sent in enumerate((0x3131 + n, 0x9797 + 5 * n)):
+                        chk = ["pipeline", "ret_ok", "outside", "srcsame"] + (["memo_exact"] if rep else [])
+                        cases.append(rz.resize_case(pt, sw, sh, dw, dh, alg=alg, flt=flt, m=m, alpha=(n % 4 == 0), box=box, Q=1, cpu=rz.CPUS[n % 3],
+                                                    src_c={"g": "rand", "seed": n}, src_lay=lay_with_guard(slay, 1), dst_lay=lay_with_guard(dlay, 1),
+                                                    api="typed" if typed else "dyn", log=("dst",), chk=chk, g=g, sent=sent))
     # errors and zero sizes leave the destination alone
     for pt in ("U8", "U8x4", "U16x3", "F32x2"):
         for (alg, flt, m) in algs[:7]:
